@@ -122,7 +122,7 @@ _E1_ASSUME = ["interleavings are explored at the granularity of hook points (ver
 CHECKS["C01"] = dict(
     test="TestC01", level="exploration",
     quick=dict(shards=8, checks=6000, timeout=300),
-    thorough=dict(shards=16, checks=4000000, timeout=3000, shrinktime="120s"),
+    thorough=dict(shards=16, checks=700000, timeout=3000, shrinktime="120s"),
     rule="cooperative-scheduler cases: channel kind (sync, queued blocking, queued non-blocking; queue 1,2,3,4,8) x buffered/pass-through and "
          "split-write mock transport x 1-3 (thorough 1-4) writer tasks x 1-4 (1-6) calls over the five low-level entry points, Writev with "
          "0-4 segments incl. empty ones, payload sizes 0-9, 16, 100, 1023-1025, 2047-2049, 4095-4097, 65535-65537, 70000 x a generated "
@@ -138,7 +138,7 @@ CHECKS["C01"] = dict(
 CHECKS["C02"] = dict(
     test="TestC02", level="exploration",
     quick=dict(shards=8, checks=6000, timeout=900),
-    thorough=dict(shards=16, checks=5000000, timeout=3000, shrinktime="120s"),
+    thorough=dict(shards=16, checks=1000000, timeout=3000, shrinktime="120s"),
     rule="same scenario family as C01, biased to queued channels and to directed prefixes that park the sender at send.beforeFlush / "
          "t.flush / send.beforeRelease / send.afterRelease / around Writev while a writer passes its enqueue; the channel stays open and "
          "nothing else is done. Oracle at the terminal state of the harness-owned executor (no runnable task, so nothing can change any "
